@@ -109,6 +109,23 @@ def main():
             else:
                 rc, so, trip = srun([SUM, '-' + sc['alg'], name])
                 ev.update({'alg': sc['alg'], 'check': 0, 'k': sc['k'], 'size': len(content), 'exit': rc, 'tripped': trip, 'reported_ok': 0, 'printed': 1 if name in so else 0})
+        elif kind == 'sumwritefault':
+            # the k-th write to standard output (a regular file) fails: the digests / verdicts are lost
+            n = sc['nfiles']
+            for i in range(n): open(os.path.join(work, 'f%03d.txt' % i), 'wb').write(b'content %d\n' % i)
+            names = ['f%03d.txt' % i for i in range(n)]
+            rc0, so0, se0, _ = run([SUM, '-' + sc['alg']] + names)
+            open(os.path.join(work, 'list.sum'), 'wb').write(so0)
+            outp = os.path.join(work, 'stdout.txt'); slog = os.path.join(work, 'strace.log')
+            args = [SUM, '-' + sc['alg'] + 'c', 'list.sum'] if sc.get('check') else [SUM, '-' + sc['alg']] + names
+            with open(outp, 'wb') as fo:
+                p = subprocess.run(['strace', '-o', slog, '-P', outp, '-e', 'trace=write', '-e', 'inject=write:error=ENOSPC:when=%d' % sc['k']] + args,
+                                   stdout=fo, stderr=subprocess.PIPE, env=env0, cwd=work, timeout=120)
+            trip = 1 if os.path.exists(slog) and 'INJECTED' in open(slog).read() else 0
+            got = open(outp, 'rb').read()
+            want = so0 if not sc.get('check') else b''.join(b'%s: OK\n' % nm.encode() for nm in names)
+            ev.update({'alg': sc['alg'], 'check': 1 if sc.get('check') else 0, 'nfiles': n, 'k': sc['k'], 'gen_exit': rc0, 'exit': p.returncode, 'tripped': trip,
+                       'complete': 1 if got == want else 0, 'stderr': 1 if p.stderr else 0})
         elif kind == 'sumlistfault':
             # a read error on the CHECKSUM LIST itself at its k-th read: nothing may be taken for verified
             n = sc['nfiles']
